@@ -145,9 +145,13 @@ func C02(p *load.Prog, r *report.Report) {
 				r.Undecided("C02.law", construct, p.Pos(res.PanicAt), "path ends with "+res.Exit+" "+res.Abort)
 				return
 			}
-			if len(res.Guards) > 0 {
-				r.Undecided("C02.law", construct, p.Pos(res.Guards[0].Pos), "the operation branches on data ("+res.Guards[0].Cond.String()+"): not a complete formula in the accepted form")
+			hyp := newPathHyp(res.It, "1", "2")
+			if !hyp.ok {
+				r.Undecided("C02.law", construct, p.Pos(res.Guards[0].Pos), "the operation branches on data in a way the analysis cannot relate to the operands ("+hyp.String()+")")
 				return
+			}
+			if len(res.Guards) > 0 {
+				construct = fmt.Sprintf("%s [%s]", c.name, hyp.String())
 			}
 			for _, e := range eventsOf(res, "precond", "selector", "unmodelled", "top-branch", "bounds", "global-store") {
 				r.Undecided("C02.law", construct+" ("+e.Kind+")", p.Pos(e.Pos), e.Msg)
@@ -167,13 +171,16 @@ func C02(p *load.Prog, r *report.Report) {
 				r.Undecided("C02.law", construct, p.Pos(fn.Pos()), why)
 				return
 			}
-			ok, detail := samePoint(pt{x, y, z}, c.want(P1, P2), "1", "2")
+			ok, detail := samePoint(hyp.pt(pt{x, y, z}), hyp.pt(c.want(P1, P2)), "1", "2")
 			r.Check(ok, "C02.law", construct, p.Pos(fn.Pos()), detail, "receiver after "+c.name+" is not the group-law result for all inputs: "+detail)
 			r.Sample(map[string]interface{}{"case": c.name, "x3_terms": x.NumTerms(), "y3_terms": y.NumTerms(), "z3_terms": z.NumTerms(), "fiat_leaf_calls": it.LeafCalls})
 			// frame: the argument keeps its value, nothing else is written
 			if arg != nil {
 				ax, ay, az, why := m.coords(it, arg)
 				same := why == "" && ax.Equal(P2.X) && ay.Equal(P2.Y) && az.Equal(P2.Z)
+				if !same && why == "" {
+					same, _ = samePoint(hyp.pt(pt{ax, ay, az}), hyp.pt(P2), "1", "2")
+				}
 				r.Check(same, "C02.argument-unchanged", construct, p.Pos(fn.Pos()), "the argument's coordinates are unchanged", "the argument is modified by the operation")
 			}
 			// the returned pointer is the receiver
